@@ -134,6 +134,7 @@ struct Pair {
 struct Run<'a> {
     case: &'a Case,
     vault: Vault,
+    cfg: VaultConfig,
     store: TensorStore,
     graph: Arc<GraphEngine>,
     m: Model,
@@ -869,6 +870,23 @@ impl<'a> Run<'a> {
                 }
                 Ok(())
             },
+            Op::ClosedSleep => {
+                // the vault is not running while the grants expire: a new Vault is opened over the same
+                // store and graph after the deadline (restart spanning the expiry)
+                if self.sleeps >= MAX_SLEEPS || !self.m.has_unexpired_short() {
+                    ctx.label("skip:sleep");
+                    return Ok(());
+                }
+                self.sleeps += 1;
+                std::thread::sleep(Duration::from_millis(SLEEP_MS));
+                self.expire_now();
+                match Vault::new(MASTER, Arc::clone(&self.graph), self.store.clone(), self.cfg.clone()) {
+                    Ok(v) => self.vault = v,
+                    Err(e) => return ctx.fail("harness:vault-reopen-failed", err_text(&e)),
+                }
+                ctx.label("ttl:vault reopened after the grants expired");
+                Ok(())
+            },
             Op::SealedSleep => {
                 if self.sleeps >= MAX_SLEEPS || !self.m.has_unexpired_short() {
                     ctx.label("skip:sleep");
@@ -1365,7 +1383,7 @@ fn run_case(case: &Case, ctx: &mut CaseCtx) -> Result<(), Fail> {
     cfg.attenuation = attenuation;
     cfg.max_delegation_depth = Some(64);
     cfg.max_value_size = max_value;
-    let vault = match Vault::new(MASTER, Arc::clone(&graph), store.clone(), cfg) {
+    let vault = match Vault::new(MASTER, Arc::clone(&graph), store.clone(), cfg.clone()) {
         Ok(v) => v,
         Err(e) => return ctx.fail("harness:vault-new-failed", err_text(&e)),
     };
@@ -1374,6 +1392,7 @@ fn run_case(case: &Case, ctx: &mut CaseCtx) -> Result<(), Fail> {
     let mut run = Run {
         case,
         vault,
+        cfg,
         store,
         graph,
         m,
